@@ -3,7 +3,7 @@ import LeptosModel.Model.Router
 # C14 — the router matches exactly the paths its route table declares
 
 Property theorems about `Model/Router`.  `k : Ver`: `.cur` is the code as it is (after the repairs
-fix-c14-1..4), `.old` the code before them (regression witnesses only), `.aligned` the segment-aligned
+fix-c14-1..5), `.old` the code before them (regression witnesses only), `.aligned` the segment-aligned
 variant that only serves to state the decidable input class `SegmentAligned`.
 
 * `C14_partition` (+ `_nested`, `C14_nested_complete`): matched ++ remaining = path — full, every segment
@@ -13,8 +13,8 @@ variant that only serves to state the decidable input class `SegmentAligned`.
 * `C14_static_is_whole_segment` (fix-c14-1): a static segment matches iff the first path segment *is* its text.
 * `C14_expand_optionals`: the worklist = the recursive spec, 2^k entries, no optional left — full.
 * `C14_match_iff_flat_full`: the full statement; still refuted (`C14_match_iff_flat_full_false`, by the
-  optional-parent witness F-C14-5); one witness per remaining known-finding class (F-C14-2/5/6/7/9/10).
-* regression witnesses for the repaired findings F-C14-1/3/4/8: what `.old` did, what `.cur` does, and
+  optional-parent witness F-C14-5); one witness per remaining known-finding class (F-C14-2/5/6/10).
+* regression witnesses for the repaired findings F-C14-1/3/4/7/8/9: what `.old` did, what `.cur` does, and
   that the oracle now accepts (`Holds`).
 * `C14_match_iff_flat_partial` (+ `_holds`): proved for single leaf routes whose segments are plain
   statics and params (`SimpleN`) and for EVERY request path — the hypothesis `SegmentAligned`, needed for
@@ -36,6 +36,14 @@ variant that only serves to state the decidable input class `SegmentAligned`.
   `"/"` segments satisfy the full statement on every request path (`C14_aligned_without_slash_segments`: there the
   router never leaves the segment grid); `C14_slash_parent_exact`: on optional-free tables every failure needs a
   `"/"` segment in the table and a path with `¬SegmentAligned` — the class `slash-parent` (F-C14-2) is exact there.
+* **tables WITH optional params, stage 1** — `C14_match_iff_flat_optional_leaves`: well-formed tables whose
+  optional params occur only in leaf routes, at most one per route, not inside an inner tuple (hypotheses =
+  the negated class predicates `anyOptParent`, `anyMultiOpt`, `anyInnerOptTuple` of the driver), on every path
+  with `SegmentAligned`: `Holds`.  Route: `passFields_append`, `pass_noopt`, `tuple_one_opt` (the back-off loop
+  with one optional field), `one_opt_test` (segment tree = `optSeqRP` of its atoms), `optSeq_aligned`,
+  `no_leftover_after_shift` (slash counting: if the pass with the optional leaves something over, the variant
+  without it cannot accept either), `gmatchO_eq_expansions` (a one-optional leaf = the first accepting of its
+  two registered expansions), `nested_aligned1`, `route_aligned1`, `judge_of_table`.
 * `C14_build_then_match_nested` (nested routes of any depth, one child per level, every version of the code,
   via `seq_build` / `build_nested`) and `C14_build_then_match_table` (whole tables with siblings and base: the
   built path is matched by that definition or an earlier accepting one).
@@ -1121,7 +1129,7 @@ theorem C14_holds_not_panic (d : Defs) (path : Path) (h : Holds d path) : matchR
   intro hp; unfold Holds at h; rw [hp] at h; simp [judge] at h
 
 /-! ### refutation witnesses of the full statement on the code as it is (design-level findings that
-stay known; each replayed on the real router: corpus/C14/witnesses.ops) -/
+stay known: F-C14-2/5/6/10; each replayed on the real router: corpus/C14/witnesses.ops) -/
 
 def optParent : Defs := ⟨none, [.mk (.tup [.st ['a'], .opt ['r']]) [.mk (.st ['b']) []]]⟩
 
@@ -1160,26 +1168,6 @@ theorem C14_optional_backoff_order_witness :
     flatMatchStrict [.st ['b'], .param ['c']] ['/', 'b', '/', 'x'] = some [(['c'], ['x'])] ∧
     judge optOrder ['/', 'b', '/', 'x'] .none = some .flatOnly ∧
     classify optOrder ['/', 'b', '/', 'x'] .flatOnly = .optionalBackoffOrder ∧ optOrder.wf = true := by decide
-
-def optParams : Defs := ⟨none, [.mk (.opt ['a']) [.mk (.st ['b']) [.mk (.st ['c']) []]]]⟩
-
-/-- F-C14-7: the optional fallback re-parses the parent's params on the wrong string: `/b/c` yields `a = "b"` -/
-theorem C14_optional_fallback_params_witness :
-    matchRoute .cur optParams ['/', 'b', '/', 'c'] =
-      .some ⟨[(0, ['/', 'b']), (0, ['/', 'b']), (0, ['/', 'c'])], [(['a'], ['b'])]⟩ ∧
-    judge optParams ['/', 'b', '/', 'c'] (matchRoute .cur optParams ['/', 'b', '/', 'c']) = some .params ∧
-    classify optParams ['/', 'b', '/', 'c'] .params = .optionalFallbackParams ∧ optParams.wf = true := by decide
-
-def optOver : Defs :=
-  ⟨none, [.mk (.tup [.param ['p'], .opt ['o']]) [.mk (.st ['x']) [.mk (.opt ['q']) []]]]⟩
-
-/-- F-C14-9: the optional fallback with a mandatory param in the parent consumes the path twice: `/x/a` -/
-theorem C14_optional_fallback_overmatch_witness :
-    matchRoute .cur optOver ['/', 'x', '/', 'a'] =
-      .some ⟨[(0, ['/', 'x', '/', 'a']), (0, ['/', 'x']), (0, ['/', 'a'])],
-        [(['p'], ['x']), (['o'], ['a']), (['q'], ['a'])]⟩ ∧
-    judge optOver ['/', 'x', '/', 'a'] (matchRoute .cur optOver ['/', 'x', '/', 'a']) = some .routerOnly ∧
-    classify optOver ['/', 'x', '/', 'a'] .routerOnly = .optionalFallbackOvermatch ∧ optOver.wf = true := by decide
 
 def optInner : Defs :=
   ⟨none, [.mk (.tup [.tup [.opt ['a'], .st ['b']], .st ['c'], .st ['b']]) []]⟩
@@ -1237,6 +1225,31 @@ theorem C14_base_slashes_witness :
     matchRoute .cur baseAB ['/', '/', 'a', '/', 'b'] = .none ∧ Holds baseAB ['/', '/', 'a', '/', 'b'] ∧
     matchRoute .cur baseAB ['/', 'a', 'b'] = .none ∧ Holds baseAB ['/', 'a', 'b'] ∧
     matchRoute .cur baseAB ['/', 'a', '/', 'b'] = .some ⟨[(0, ['/', 'b'])], []⟩ ∧ baseAB.wf = true := by decide
+
+def optParams : Defs := ⟨none, [.mk (.opt ['a']) [.mk (.st ['b']) [.mk (.st ['c']) []]]]⟩
+
+/-- F-C14-7 (repaired by fix-c14-5): the optional fallback re-parsed the parent's params on the wrong
+string: `/b/c` yielded `a = "b"` for `/:a?` → `/b` → `/c`; now no `a` -/
+theorem C14_optional_fallback_params_witness :
+    matchRoute .old optParams ['/', 'b', '/', 'c'] =
+      .some ⟨[(0, ['/', 'b']), (0, ['/', 'b']), (0, ['/', 'c'])], [(['a'], ['b'])]⟩ ∧
+    judge optParams ['/', 'b', '/', 'c'] (matchRoute .old optParams ['/', 'b', '/', 'c']) = some .params ∧
+    matchRoute .cur optParams ['/', 'b', '/', 'c'] =
+      .some ⟨[(0, ['/', 'b']), (0, ['/', 'b']), (0, ['/', 'c'])], []⟩ ∧
+    Holds optParams ['/', 'b', '/', 'c'] ∧ optParams.wf = true := by decide
+
+def optOver : Defs :=
+  ⟨none, [.mk (.tup [.param ['p'], .opt ['o']]) [.mk (.st ['x']) [.mk (.opt ['q']) []]]]⟩
+
+/-- F-C14-9 (repaired by fix-c14-5): the optional fallback with a mandatory param in the parent
+consumed the path twice: `/x/a` matched `/:p/:o?` → `/x` → `/:q?`; now it does not -/
+theorem C14_optional_fallback_overmatch_witness :
+    matchRoute .old optOver ['/', 'x', '/', 'a'] =
+      .some ⟨[(0, ['/', 'x', '/', 'a']), (0, ['/', 'x']), (0, ['/', 'a'])],
+        [(['p'], ['x']), (['o'], ['a']), (['q'], ['a'])]⟩ ∧
+    judge optOver ['/', 'x', '/', 'a'] (matchRoute .old optOver ['/', 'x', '/', 'a']) = some .routerOnly ∧
+    matchRoute .cur optOver ['/', 'x', '/', 'a'] = .none ∧ Holds optOver ['/', 'x', '/', 'a'] ∧
+    optOver.wf = true := by decide
 
 def optUnwrap : Defs := ⟨none, [.mk (.tup [.st ['a'], .opt ['r']]) [.mk (.st ['a']) []]]⟩
 
@@ -2301,7 +2314,7 @@ theorem nested_rem_complete (k : Ver) : ∀ (r : Route) (pos : Nat) (path : Path
             | none => rw [hc2] at h; simp at h
             | some inner rem' =>
               rw [hc2] at h; simp only at h
-              cases hs2 : segs.test k (trimEnd (innerMatched inner ++ rem') path) with
+              cases hs2 : segs.test k (if k.fixed = true then [] else trimEnd (innerMatched inner ++ rem') path) with
               | some np => rw [hs2] at h; simp only at h; exact (finish_complete _ _ _ _ _ _ _ h).2
               | none => rw [hs2] at h; simp only at h; split at h <;> simp at h
               | panic => rw [hs2] at h; simp at h
@@ -3554,7 +3567,7 @@ theorem nested_head_pos (k : Ver) : ∀ (r : Route) (pos : Nat) (path : Path) (m
             | none => rw [hc2] at h; simp at h
             | some inner rem' =>
               rw [hc2] at h; simp only at h
-              cases hs2 : segs.test k (trimEnd (innerMatched inner ++ rem') path) with
+              cases hs2 : segs.test k (if k.fixed = true then [] else trimEnd (innerMatched inner ++ rem') path) with
               | some np => rw [hs2] at h; exact hfin _ _ _ _ h
               | none => rw [hs2] at h; simp only at h; split at h <;> simp at h
               | panic => rw [hs2] at h; simp at h
@@ -4233,6 +4246,1497 @@ theorem C14_slash_parent_exact (d : Defs) (path : Path) (hw : d.wf = true) (hp :
   · intro hal
     exact hfail (C14_match_iff_flat_partial_general d path hw hp hn hal)
 
+
+
+/-! # tables with optional params, stage 1: one optional per leaf route -/
+
+/-! ## the tuple loop with one optional field -/
+
+def Pass.rp : Pass → Out (Path × Params)
+  | .done r _ p => .some (r, p)
+  | .panic => .panic
+  | _ => .none
+
+def seqRP (k : Ver) (F : List FSeg) (path : Path) : Out (Path × Params) := (seqTest k F path).rp
+
+theorem passFields_append (k : Ver) : ∀ (l1 l2 : List Seg) (first : Bool) (inc nth : Nat) (r : Path) (ml : Nat)
+    (p : Params),
+    passFields k (l1 ++ l2) first inc nth r ml p =
+      match passFields k l1 first inc nth r ml p with
+      | .done r' ml' p' => passFields k l2 (first && l1.isEmpty) inc (nth + countOpt l1) r' ml' p'
+      | x => x := by
+  intro l1
+  induction l1 with
+  | nil => intro l2 first inc nth r ml p; simp [passFields, countOpt]
+  | cons ty tys ih =>
+    intro l2 first inc nth r ml p
+    simp only [List.cons_append, passFields, List.isEmpty_cons, Bool.and_false, countOpt]
+    by_cases ho : ty.optional = true
+    · simp only [ho, if_true]
+      split
+      · cases ht : ty.test k r with
+        | panic => rfl
+        | none => simp only; cases first <;> rfl
+        | some m =>
+          simp only
+          rw [ih]
+          have : nth + 1 + countOpt tys = nth + (1 + countOpt tys) := by omega
+          simp [this]
+      · rw [ih]
+        have : nth + 1 + countOpt tys = nth + (1 + countOpt tys) := by omega
+        simp [this]
+    · have ho' : ty.optional = false := by simpa using ho
+      simp only [ho', Bool.false_eq_true, if_false, Bool.not_false, Bool.true_or, if_true]
+      cases ht : ty.test k r with
+      | panic => rfl
+      | none => simp only; cases first <;> simp <;> (by_cases hi : inc = 0 <;> simp [hi])
+      | some m =>
+        simp only
+        rw [ih]
+        simp
+
+/-- how a pass ends when a non-optional field does not match -/
+def softOk (first : Bool) (inc : Nat) (x : Pass) : Prop :=
+  (x = .fail ∨ x = .retry) ∧ (inc = 0 → x = .fail) ∧ (first = false → inc ≠ 0 → x = .retry)
+
+theorem softOk_mono {first : Bool} {inc : Nat} {x : Pass} (h : softOk false inc x) : softOk first inc x :=
+  ⟨h.1, h.2.1, fun _ hi => h.2.2 rfl hi⟩
+
+/-- optional-free fields under any `include_optionals`: the flat list of their atoms in sequence -/
+theorem pass_noopt (k : Ver) : ∀ (l : List Seg) (first : Bool) (inc nth : Nat) (r : Path) (ml : Nat) (p : Params),
+    anyOptional l = false →
+    match seqTest k (genSegs l) r with
+    | .some m => passFields k l first inc nth r ml p = .done m.remaining (ml + bytes m.matched) (p ++ m.params)
+    | .panic => passFields k l first inc nth r ml p = .panic
+    | .none => softOk first inc (passFields k l first inc nth r ml p) := by
+  intro l
+  induction l with
+  | nil => intro first inc nth r ml p _; simp [genSegs, seqTest, passFields, bytes]
+  | cons ty tys ih =>
+    intro first inc nth r ml p h
+    simp only [anyOptional, Bool.or_eq_false_iff] at h
+    have iht := flatten_test k ty r h.1
+    simp only [genSegs, seqTest_append, passFields, h.1, Bool.false_eq_true, if_false, Bool.not_false,
+      Bool.true_or, if_true, iht]
+    cases hs : seqTest k ty.gen r with
+    | panic => simp
+    | none =>
+      simp only
+      cases first with
+      | true => exact ⟨Or.inl rfl, fun _ => rfl, fun h => by simp at h⟩
+      | false =>
+        by_cases hi : inc = 0
+        · simp [hi, softOk]
+        · simp [hi, softOk]
+    | some m =>
+      simp only
+      have := ih false inc nth m.remaining (ml + bytes m.matched) (p ++ m.params) h.2
+      cases hs2 : seqTest k (genSegs tys) m.remaining with
+      | panic => rw [hs2] at this; simpa using this
+      | none => rw [hs2] at this; simpa using softOk_mono this
+      | some m2 =>
+        rw [hs2] at this
+        simp only at this ⊢
+        rw [this]
+        simp [bytes_append, Nat.add_assoc]
+
+theorem countOptF_append (a b : List FSeg) : countOptF (a ++ b) = countOptF a + countOptF b := by
+  induction a with
+  | nil => simp [countOptF]
+  | cons f a ih => simp [countOptF, ih]; omega
+
+mutual
+theorem optional_has_opt : ∀ (s : Seg), s.optional = true → 1 ≤ countOptF s.gen
+  | .st _, h => by simp [Seg.optional] at h
+  | .param _, h => by simp [Seg.optional] at h
+  | .opt n, _ => by simp [Seg.gen, countOptF, FSeg.isOpt]
+  | .splat _, h => by simp [Seg.optional] at h
+  | .tup l, h => by
+    simp only [Seg.optional] at h
+    simp only [Seg.gen]
+    exact anyOptional_has_opt l h
+theorem anyOptional_has_opt : ∀ (l : List Seg), anyOptional l = true → 1 ≤ countOptF (genSegs l)
+  | [], h => by simp [anyOptional] at h
+  | a :: r, h => by
+    simp only [anyOptional, Bool.or_eq_true] at h
+    simp only [genSegs, countOptF_append]
+    rcases h with h | h
+    · have := optional_has_opt a h; omega
+    · have := anyOptional_has_opt r h; omega
+end
+
+/-- an optional atom possibly wrapped in 1-tuples behaves like the atom -/
+theorem optAtomish_spec (k : Ver) : ∀ (o : Seg), o.optAtomish = true →
+    ∃ n, o.gen = [.opt n] ∧ o.optional = true ∧
+      ∀ path, (o.test k path).rp = ((toSeg (.opt n)).test k path).rp
+  | .opt n, _ => ⟨n, rfl, rfl, fun _ => rfl⟩
+  | .tup [a], h => by
+    have ha : a.optAtomish = true := by simpa [Seg.optAtomish] using h
+    obtain ⟨n, h1, h2, h3⟩ := optAtomish_spec k a ha
+    refine ⟨n, by simp [Seg.gen, genSegs, h1], by simp [Seg.optional, anyOptional, h2], ?_⟩
+    intro path
+    rw [← h3 path]
+    simp only [Seg.test]
+    cases ht : a.test k path with
+    | panic => rfl
+    | none => rfl
+    | some m =>
+      have hp := test_partition k a path m ht
+      have := splitBytes_bytes m.matched m.remaining
+      rw [hp] at this
+      simp [this, Out.rp]
+  | .st _, h => by simp [Seg.optAtomish] at h
+  | .param _, h => by simp [Seg.optAtomish] at h
+  | .splat _, h => by simp [Seg.optAtomish] at h
+  | .tup [], h => by simp [Seg.optAtomish] at h
+  | .tup (_ :: _ :: _), h => by simp [Seg.optAtomish] at h
+
+/-- the router-side reading of a flat list with (at most) one optional: the optional takes the next
+segment if there is one; if a later segment then fails, the whole tuple is tried again without it -/
+def optSeqRP (k : Ver) : List FSeg → Path → Out (Path × Params)
+  | [], path => .some (path, [])
+  | .opt n :: B, r1 =>
+    match ((toSeg (.opt n)).test k r1).rp with
+    | .panic => .panic
+    | .none => .none
+    | .some (r2, po) =>
+      match seqRP k B r2 with
+      | .some (r3, p3) => .some (r3, po ++ p3)
+      | .panic => .panic
+      | .none => seqRP k B r1
+  | f :: F, path =>
+    match ((toSeg f).test k path).rp with
+    | .panic => .panic
+    | .none => .none
+    | .some (r, ps) =>
+      match optSeqRP k F r with
+      | .some (r', ps') => .some (r', ps ++ ps')
+      | o => o
+
+theorem optSeqRP_noopt (k : Ver) : ∀ (F : List FSeg), countOptF F = 0 → ∀ path, optSeqRP k F path = seqRP k F path := by
+  intro F
+  induction F with
+  | nil => intro _ path; simp [optSeqRP, seqRP, seqTest, Out.rp]
+  | cons f F ih =>
+    intro h path
+    have hf : f.isOpt = false := by
+      cases hh : f.isOpt <;> simp [countOptF, hh] at h ⊢
+    have hF : countOptF F = 0 := by simp [countOptF, hf] at h; exact h
+    have ih' := ih hF
+    cases f with
+    | opt n => simp [FSeg.isOpt] at hf
+    | st s =>
+      simp only [optSeqRP, seqRP, seqTest]
+      cases (toSeg (.st s)).test k path with
+      | panic => rfl
+      | none => rfl
+      | some m =>
+        simp only [Out.rp, ih']
+        simp only [seqRP]
+        cases seqTest k F m.remaining <;> simp [Out.rp]
+    | param s =>
+      simp only [optSeqRP, seqRP, seqTest]
+      cases (toSeg (.param s)).test k path with
+      | panic => rfl
+      | none => rfl
+      | some m =>
+        simp only [Out.rp, ih']
+        simp only [seqRP]
+        cases seqTest k F m.remaining <;> simp [Out.rp]
+    | splat s =>
+      simp only [optSeqRP, seqRP, seqTest]
+      cases (toSeg (.splat s)).test k path with
+      | panic => rfl
+      | none => rfl
+      | some m =>
+        simp only [Out.rp, ih']
+        simp only [seqRP]
+        cases seqTest k F m.remaining <;> simp [Out.rp]
+
+
+
+theorem optSeqRP_prefix (k : Ver) : ∀ (A F : List FSeg), countOptF A = 0 → ∀ path,
+    optSeqRP k (A ++ F) path =
+      match seqRP k A path with
+      | .some (r, ps) =>
+        (match optSeqRP k F r with
+         | .some (r', ps') => .some (r', ps ++ ps')
+         | o => o)
+      | .none => .none
+      | .panic => .panic := by
+  intro A
+  induction A with
+  | nil =>
+    intro F _ path
+    simp only [List.nil_append, seqRP, seqTest, Out.rp]
+    cases optSeqRP k F path with
+    | some x => obtain ⟨r, ps⟩ := x; simp
+    | none => rfl
+    | panic => rfl
+  | cons f A ih =>
+    intro F h path
+    have hf : f.isOpt = false := by
+      cases hh : f.isOpt <;> simp [countOptF, hh] at h ⊢
+    have hA : countOptF A = 0 := by simp [countOptF, hf] at h; exact h
+    have step : ∀ (g : FSeg), g.isOpt = false → optSeqRP k (g :: (A ++ F)) path =
+        match ((toSeg g).test k path).rp with
+        | .panic => .panic
+        | .none => .none
+        | .some (r, ps) =>
+          match optSeqRP k (A ++ F) r with
+          | .some (r', ps') => .some (r', ps ++ ps')
+          | o => o := by
+      intro g hg
+      cases g <;> simp [FSeg.isOpt] at hg <;> rfl
+    rw [List.cons_append, step f hf]
+    simp only [seqRP, seqTest]
+    cases (toSeg f).test k path with
+    | panic => rfl
+    | none => rfl
+    | some m =>
+      simp only [Out.rp, ih F hA, seqRP]
+      cases seqTest k A m.remaining with
+      | panic => rfl
+      | none => rfl
+      | some m2 =>
+        simp only [Out.rp]
+        cases optSeqRP k F m2.remaining with
+        | some x => obtain ⟨r, ps⟩ := x; simp [List.append_assoc]
+        | none => rfl
+        | panic => rfl
+
+theorem countOptF_noopt (l : List Seg) (h : anyOptional l = false) : countOptF (genSegs l) = 0 := by
+  cases hc : countOptF (genSegs l) with
+  | zero => rfl
+  | succ n =>
+    exfalso
+    have : ∀ f ∈ genSegs l, f.isOpt = false := genSegs_noOpt l h
+    have h0 : countOptF (genSegs l) = 0 := by
+      generalize genSegs l = F at this
+      induction F with
+      | nil => rfl
+      | cons f F ih =>
+        simp [countOptF, this f (by simp), ih (fun x hx => this x (by simp [hx]))]
+    omega
+
+theorem backoff_one (f : Nat → Pass) : backoff f 1 = match f 1 with | .retry => f 0 | r => r := by
+  simp only [backoff]
+  cases f 1 <;> rfl
+
+/-- **the tuple loop with exactly one optional field** (fields before and after it optional-free, the
+optional field an optional atom, possibly wrapped in 1-tuples), in every version of the code -/
+theorem tuple_one_opt (k : Ver) (LA LB : List Seg) (o : Seg) (hLA : anyOptional LA = false)
+    (hLB : anyOptional LB = false) (ho : o.optAtomish = true) (path : Path) :
+    ∃ n, o.gen = [.opt n] ∧
+      (backoff (fun inc => passFields k (LA ++ o :: LB) true inc 0 path 0 []) 1).rp =
+        optSeqRP k (genSegs LA ++ .opt n :: genSegs LB) path := by
+  obtain ⟨n, hgen, hopt, htest⟩ := optAtomish_spec k o ho
+  refine ⟨n, hgen, ?_⟩
+  rw [backoff_one]
+  rw [optSeqRP_prefix k _ _ (countOptF_noopt LA hLA)]
+  simp only [passFields_append, countOpt_noOpt LA hLA, Nat.add_zero]
+  have hA1 := pass_noopt k LA true 1 0 path 0 [] hLA
+  have hA0 := pass_noopt k LA true 0 0 path 0 [] hLA
+  simp only [seqRP]
+  cases hsA : seqTest k (genSegs LA) path with
+  | panic =>
+    rw [hsA] at hA1
+    simp only at hA1
+    simp [hA1, Pass.rp, Out.rp]
+  | none =>
+    rw [hsA] at hA1 hA0
+    simp only at hA1 hA0
+    have h0 : passFields k LA true 0 0 path 0 [] = .fail := hA0.2.1 rfl
+    rcases hA1.1 with h1 | h1
+    · simp [h1, Pass.rp, Out.rp]
+    · simp [h1, h0, Pass.rp, Out.rp]
+  | some mA =>
+    rw [hsA] at hA1 hA0
+    simp only at hA1 hA0
+    simp only [hA1, hA0, Out.rp, List.nil_append, Nat.zero_add]
+    -- the optional field, included (inc = 1)
+    simp only [passFields, hopt, if_true, Bool.not_true, Bool.false_or, Nat.le_refl, decide_true,
+      Nat.zero_add, optSeqRP]
+    have ht := htest mA.remaining
+    have hB1 : ∀ (r : Path) (ml : Nat) (p : Params), _ := fun r ml p => pass_noopt k LB false 1 1 r ml p hLB
+    have hB0 := pass_noopt k LB false 0 1 mA.remaining (bytes mA.matched) mA.params hLB
+    cases hto : o.test k mA.remaining with
+    | panic =>
+      rw [hto] at ht
+      have ht' : ((toSeg (.opt n)).test k mA.remaining).rp = .panic := by rw [← ht]; rfl
+      rw [ht']
+      simp [Pass.rp]
+    | none =>
+      rw [hto] at ht
+      have ht' : ((toSeg (.opt n)).test k mA.remaining).rp = .none := by rw [← ht]; rfl
+      rw [ht']
+      cases LA.isEmpty <;> simp [Pass.rp]
+    | some mo =>
+      rw [hto] at ht
+      have ht' : ((toSeg (.opt n)).test k mA.remaining).rp = .some (mo.remaining, mo.params) := by
+        rw [← ht]; rfl
+      rw [ht']
+      simp only
+      have hb1 := hB1 mo.remaining (bytes mA.matched + bytes mo.matched) (mA.params ++ mo.params)
+      simp only [seqRP]
+      cases hsB : seqTest k (genSegs LB) mo.remaining with
+      | panic =>
+        rw [hsB] at hb1
+        simp only at hb1
+        simp [hb1, Pass.rp, Out.rp]
+      | some mB =>
+        rw [hsB] at hb1
+        simp only at hb1
+        simp [hb1, Pass.rp, Out.rp, List.append_assoc]
+      | none =>
+        rw [hsB] at hb1
+        simp only at hb1
+        have hretry : passFields k LB false 1 1 mo.remaining (bytes mA.matched + bytes mo.matched)
+            (mA.params ++ mo.params) = .retry := hb1.2.2 rfl (by decide)
+        simp only [hretry, Out.rp]
+        -- second pass (inc = 0): the optional field is skipped
+        have h10 : decide (1 ≤ 0) = false := by decide
+        simp only [h10, Bool.false_eq_true, if_false]
+        cases hsB0 : seqTest k (genSegs LB) mA.remaining with
+        | panic => rw [hsB0] at hB0; simp only at hB0; simp [hB0, Pass.rp, Out.rp]
+        | some mB' => rw [hsB0] at hB0; simp only at hB0; simp [hB0, Pass.rp, Out.rp]
+        | none =>
+          rw [hsB0] at hB0
+          simp only at hB0
+          have := hB0.2.1 rfl
+          simp [this, Pass.rp, Out.rp]
+
+
+
+theorem noopt_of_count (l : List Seg) (h : countOptF (genSegs l) = 0) : anyOptional l = false := by
+  cases ha : anyOptional l with
+  | false => rfl
+  | true => have := anyOptional_has_opt l ha; omega
+
+/-- a tuple whose only optional field is an optional atom splits around that field -/
+theorem one_opt_decomp : ∀ (l : List Seg), anyOptional l = true → innerOptFields l = false →
+    countOptF (genSegs l) ≤ 1 →
+    ∃ LA o LB, l = LA ++ o :: LB ∧ anyOptional LA = false ∧ anyOptional LB = false ∧ o.optAtomish = true := by
+  intro l
+  induction l with
+  | nil => intro h; simp [anyOptional] at h
+  | cons a r ih =>
+    intro h hin hc
+    simp only [innerOptFields, Bool.or_eq_false_iff, Bool.and_eq_false_iff] at hin
+    simp only [genSegs, countOptF_append] at hc
+    by_cases ha : a.optional = true
+    · have hat : a.optAtomish = true := by
+        rcases hin.1.1 with h1 | h1
+        · simp [ha] at h1
+        · simpa using h1
+      have h1 := optional_has_opt a ha
+      refine ⟨[], a, r, rfl, rfl, noopt_of_count r (by omega), hat⟩
+    · have ha' : a.optional = false := by simpa using ha
+      have hr : anyOptional r = true := by simpa [anyOptional, ha'] using h
+      obtain ⟨LA, o, LB, h1, h2, h3, h4⟩ := ih hr hin.2 (by omega)
+      exact ⟨a :: LA, o, LB, by simp [h1], by simp [anyOptional, ha', h2], h3, h4⟩
+
+theorem countOpt_append (a b : List Seg) : countOpt (a ++ b) = countOpt a + countOpt b := by
+  induction a with
+  | nil => simp [countOpt]
+  | cons f a ih => simp [countOpt, ih]; omega
+
+theorem genSegs_append (a b : List Seg) : genSegs (a ++ b) = genSegs a ++ genSegs b := by
+  induction a with
+  | nil => rfl
+  | cons f a ih => simp [genSegs, ih]
+
+theorem optSeqRP_single (k : Ver) (f : FSeg) (path : Path) :
+    optSeqRP k [f] path = ((toSeg f).test k path).rp := by
+  cases f with
+  | opt n =>
+    simp only [optSeqRP, seqRP, seqTest, Out.rp]
+    cases (toSeg (.opt n)).test k path <;> simp
+  | st s => simp only [optSeqRP]; cases ((toSeg (.st s)).test k path).rp with
+    | some x => obtain ⟨r, ps⟩ := x; simp
+    | none => rfl
+    | panic => rfl
+  | param s => simp only [optSeqRP]; cases ((toSeg (.param s)).test k path).rp with
+    | some x => obtain ⟨r, ps⟩ := x; simp
+    | none => rfl
+    | panic => rfl
+  | splat s => simp only [optSeqRP]; cases ((toSeg (.splat s)).test k path).rp with
+    | some x => obtain ⟨r, ps⟩ := x; simp
+    | none => rfl
+    | panic => rfl
+
+/-- **segment trees with at most one optional param, not inside an inner tuple**: the tree behaves like
+the flat list of its atoms read by `optSeqRP` (remaining and params), in every version of the code -/
+theorem one_opt_test (k : Ver) : ∀ (s : Seg) (path : Path), s.innerOptTuple = false → countOptF s.gen ≤ 1 →
+    (s.test k path).rp = optSeqRP k s.gen path
+  | .st s, path, _, _ => (optSeqRP_single k (.st s) path).symm
+  | .param n, path, _, _ => (optSeqRP_single k (.param n) path).symm
+  | .opt n, path, _, _ => (optSeqRP_single k (.opt n) path).symm
+  | .splat n, path, _, _ => (optSeqRP_single k (.splat n) path).symm
+  | .tup [], path, _, _ => by simp [Seg.test, Seg.gen, genSegs, optSeqRP, Out.rp]
+  | .tup [a], path, h, hc => by
+    have ha : a.innerOptTuple = false := by simpa [Seg.innerOptTuple] using h
+    have hca : countOptF a.gen ≤ 1 := by simpa [Seg.gen, genSegs] using hc
+    have ih := one_opt_test k a path ha hca
+    simp only [Seg.gen, genSegs, List.append_nil]
+    rw [← ih]
+    simp only [Seg.test]
+    cases ht : a.test k path with
+    | panic => rfl
+    | none => rfl
+    | some m =>
+      have hp := test_partition k a path m ht
+      have := splitBytes_bytes m.matched m.remaining
+      rw [hp] at this
+      simp [this, Out.rp]
+  | .tup (a :: b :: l), path, h, hc => by
+    have hin : innerOptFields (a :: b :: l) = false := by simpa [Seg.innerOptTuple] using h
+    simp only [Seg.gen] at hc ⊢
+    by_cases hany : anyOptional (a :: b :: l) = true
+    · obtain ⟨LA, o, LB, hl, hLA, hLB, ho⟩ := one_opt_decomp _ hany hin hc
+      obtain ⟨n, hgen, hbk⟩ := tuple_one_opt k LA LB o hLA hLB ho path
+      have hopt : o.optional = true := (optAtomish_spec k o ho).choose_spec.2.1
+      have hcnt : countOpt (a :: b :: l) = 1 := by
+        rw [hl, countOpt_append]
+        simp [countOpt, countOpt_noOpt LA hLA, countOpt_noOpt LB hLB, hopt]
+      have hgs : genSegs (a :: b :: l) = genSegs LA ++ .opt n :: genSegs LB := by
+        rw [hl, genSegs_append]; simp [genSegs, hgen]
+      rw [hgs, ← hbk]
+      simp only [Seg.test, hcnt]
+      rw [← hl]
+      cases hb : backoff (fun inc => passFields k (a :: b :: l) true inc 0 path 0 []) 1 with
+      | done r ml p =>
+        obtain ⟨inc, hinc⟩ := backoff_done _ _ _ _ _ hb
+        obtain ⟨c, hc1, hc2⟩ := pass_inv k (a :: b :: l) true inc 0 path 0 [] path [] r ml p (by simp)
+          (by simp [bytes]) hinc
+        have := splitBytes_bytes c r
+        rw [hc1, hc2] at this
+        simp [this, Out.rp, Pass.rp]
+      | panic => simp [Out.rp, Pass.rp]
+      | fail => simp [Out.rp, Pass.rp]
+      | retry => simp [Out.rp, Pass.rp]
+    · have hany' : anyOptional (a :: b :: l) = false := by simpa using hany
+      have hfl := flatten_test k (.tup (a :: b :: l)) path (by simpa [Seg.optional] using hany')
+      rw [hfl]
+      simp only [Seg.gen]
+      rw [optSeqRP_noopt k _ (countOptF_noopt _ hany')]
+      rfl
+
+
+
+/-! ## the optional atom and the one-optional flat list, in the aligned variant -/
+
+/-- what an optional param consumes at a segment boundary -/
+def optSpec (n : List Char) : Path → Option (Path × Params)
+  | [] => some ([], [])
+  | c :: t =>
+    if c = '/' then
+      (if segHead t = [] then some (c :: t, []) else some (segTail t, [(n, segHead t)]))
+    else none
+
+theorem optTest_nil (fx : Bool) (n : Path) : optTest fx n [] = .some ⟨[], [], []⟩ := by
+  simp [optTest, paramScan, startsSlash, splitBytes]
+
+theorem opt_aligned (n path : Path) :
+    ((toSeg (.opt n)).test .aligned path).rp = ofOpt (optSpec n path) := by
+  cases path with
+  | nil => simp [toSeg, Seg.test, startOk, optTest_nil, optSpec, Out.rp, ofOpt]
+  | cons c t =>
+    by_cases hc : c = '/'
+    · subst hc
+      simp only [toSeg, Seg.test, startOk, startsSlash, decide_true, Bool.or_true, if_true, optTest_slash, optSpec]
+      by_cases he : segHead t = [] <;> simp [he, Out.rp, ofOpt]
+    · have hst : startOk .aligned (c :: t) = false := by simp [startOk, startsSlash, hc]
+      simp [toSeg, Seg.test, hst, optSpec, hc, Out.rp, ofOpt]
+
+/-- `optSeqRP` on characters -/
+def optSeqSpec : List FSeg → Path → Option (Path × Params)
+  | [], path => some (path, [])
+  | .opt n :: B, r1 =>
+    match optSpec n r1 with
+    | none => none
+    | some (r2, po) =>
+      match seqSpec B r2 with
+      | some (r3, p3) => some (r3, po ++ p3)
+      | none => seqSpec B r1
+  | f :: F, path =>
+    match atomSpec f path with
+    | none => none
+    | some (r, ps) =>
+      match optSeqSpec F r with
+      | some (r', ps') => some (r', ps ++ ps')
+      | none => none
+
+theorem wfa_of_count0 : ∀ (F : List FSeg), (∀ f ∈ F, WfAO f) → countOptF F = 0 → ∀ f ∈ F, WfA f := by
+  intro F
+  induction F with
+  | nil => intro _ _ f hf; simp at hf
+  | cons g F ih =>
+    intro hw hc f hf
+    have hg : g.isOpt = false := by
+      cases hh : g.isOpt <;> simp [countOptF, hh] at hc ⊢
+    have hF : countOptF F = 0 := by simp [countOptF, hg] at hc; exact hc
+    simp only [List.mem_cons] at hf
+    rcases hf with rfl | hf
+    · exact wfa_of_wfao (hw f (by simp)) hg
+    · exact ih (fun x hx => hw x (by simp [hx])) hF f hf
+
+theorem seqRP_aligned (F : List FSeg) (hw : ∀ f ∈ F, WfA f) (path : Path) :
+    seqRP .aligned F path = ofOpt (seqSpec F path) := seq_aligned F hw path
+
+theorem optSeq_aligned : ∀ (F : List FSeg), (∀ f ∈ F, WfAO f) → countOptF F ≤ 1 → ∀ path : Path,
+    optSeqRP .aligned F path = ofOpt (optSeqSpec F path) := by
+  intro F
+  induction F with
+  | nil => intro _ _ path; simp [optSeqRP, optSeqSpec, ofOpt]
+  | cons f F ih =>
+    intro hw hc path
+    have hw' : ∀ g ∈ F, WfAO g := fun x hx => hw x (by simp [hx])
+    cases f with
+    | opt n =>
+      have hF0 : countOptF F = 0 := by simp [countOptF, FSeg.isOpt] at hc; omega
+      have hwa := wfa_of_count0 F hw' hF0
+      simp only [optSeqRP, optSeqSpec, opt_aligned, seqRP_aligned F hwa]
+      cases optSpec n path with
+      | none => simp [ofOpt]
+      | some x =>
+        obtain ⟨r2, po⟩ := x
+        simp only [ofOpt]
+        cases seqSpec F r2 with
+        | none => simp [ofOpt]
+        | some y => obtain ⟨r3, p3⟩ := y; simp [ofOpt]
+    | st s =>
+      have hF : countOptF F ≤ 1 := by simpa [countOptF, FSeg.isOpt] using hc
+      have ha := atom_aligned (.st s) (wfa_of_wfao (hw (.st s) (by simp)) rfl) path
+      simp only [optSeqRP, optSeqSpec, ha, ih hw' hF]
+      cases atomSpec (.st s) path with
+      | none => simp [ofOpt]
+      | some x =>
+        obtain ⟨r, ps⟩ := x
+        simp only [ofOpt]
+        cases optSeqSpec F r with
+        | none => simp [ofOpt]
+        | some y => obtain ⟨r', ps'⟩ := y; simp [ofOpt]
+    | param s =>
+      have hF : countOptF F ≤ 1 := by simpa [countOptF, FSeg.isOpt] using hc
+      have ha := atom_aligned (.param s) (wfa_of_wfao (hw (.param s) (by simp)) rfl) path
+      simp only [optSeqRP, optSeqSpec, ha, ih hw' hF]
+      cases atomSpec (.param s) path with
+      | none => simp [ofOpt]
+      | some x =>
+        obtain ⟨r, ps⟩ := x
+        simp only [ofOpt]
+        cases optSeqSpec F r with
+        | none => simp [ofOpt]
+        | some y => obtain ⟨r', ps'⟩ := y; simp [ofOpt]
+    | splat s =>
+      have hF : countOptF F ≤ 1 := by simpa [countOptF, FSeg.isOpt] using hc
+      have ha := atom_aligned (.splat s) (wfa_of_wfao (hw (.splat s) (by simp)) rfl) path
+      simp only [optSeqRP, optSeqSpec, ha, ih hw' hF]
+      cases atomSpec (.splat s) path with
+      | none => simp [ofOpt]
+      | some x =>
+        obtain ⟨r, ps⟩ := x
+        simp only [ofOpt]
+        cases optSeqSpec F r with
+        | none => simp [ofOpt]
+        | some y => obtain ⟨r', ps'⟩ := y; simp [ofOpt]
+
+/-! ## slash counting: when the tuple is tried with the optional and leaves something over, the
+variant without the optional cannot accept either -/
+
+def slashes : Path → Nat
+  | [] => 0
+  | c :: t => (if c = '/' then 1 else 0) + slashes t
+
+theorem slashes_append (a b : Path) : slashes (a ++ b) = slashes a + slashes b := by
+  induction a with
+  | nil => simp [slashes]
+  | cons c a ih => simp [slashes, ih]; omega
+
+theorem slashes_segHead (t : Path) : slashes (segHead t) = 0 := by
+  induction t with
+  | nil => rfl
+  | cons c t ih =>
+    by_cases hc : c = '/'
+    · simp [segHead, hc, slashes]
+    · simp [segHead, hc, slashes]; simpa [segHead] using ih
+
+theorem slashes_split (t : Path) : slashes t = slashes (segTail t) := by
+  have := congrArg slashes (segHead_append_segTail t)
+  rw [slashes_append, slashes_segHead] at this
+  omega
+
+def consumes : FSeg → Nat
+  | .st [] => 0
+  | _ => 1
+
+def consumesAll : List FSeg → Nat
+  | [] => 0
+  | f :: F => consumes f + consumesAll F
+
+theorem atom_slashes (f : FSeg) (hw : WfA f) (hns : noSplat [f] = true) (path r : Path) (ps : Params)
+    (h : atomSpec f path = some (r, ps)) :
+    slashes path = slashes r + consumes f ∧ ∃ pre, path = pre ++ r := by
+  cases f with
+  | opt n => simp [WfA] at hw
+  | splat n => simp [noSplat] at hns
+  | st s =>
+    cases path with
+    | nil =>
+      simp only [atomSpec] at h
+      split at h
+      · next hs => subst hs; simp at h; obtain ⟨rfl, _⟩ := h; exact ⟨by simp [slashes, consumes], [], rfl⟩
+      · simp at h
+    | cons c t =>
+      simp only [atomSpec] at h
+      split at h
+      · next hc =>
+        subst hc
+        split at h
+        · next hs => subst hs; simp at h; obtain ⟨rfl, _⟩ := h; exact ⟨by simp [consumes], [], rfl⟩
+        · next hs0 =>
+          have hcons : consumes (.st s) = 1 := by cases s <;> simp [consumes] at hs0 ⊢
+          split at h
+          · simp at h; obtain ⟨rfl, _⟩ := h
+            exact ⟨by simp [slashes, hcons]; omega, ['/'], rfl⟩
+          · split at h
+            · simp at h; obtain ⟨rfl, _⟩ := h
+              refine ⟨by simp [slashes, hcons]; have := slashes_split t; omega, '/' :: segHead t, ?_⟩
+              simp [segHead_append_segTail]
+            · simp at h
+      · simp at h
+  | param n =>
+    cases path with
+    | nil => simp [atomSpec] at h
+    | cons c t =>
+      simp only [atomSpec] at h
+      split at h
+      · next hc =>
+        obtain ⟨hc1, _⟩ := hc
+        subst hc1
+        simp at h; obtain ⟨rfl, _⟩ := h
+        refine ⟨by simp [slashes, consumes]; have := slashes_split t; omega, '/' :: segHead t, ?_⟩
+        simp [segHead_append_segTail]
+      · simp at h
+
+theorem seq_slashes : ∀ (F : List FSeg), (∀ f ∈ F, WfA f) → noSplat F = true → ∀ (path r : Path) (ps : Params),
+    seqSpec F path = some (r, ps) → slashes path = slashes r + consumesAll F ∧ ∃ pre, path = pre ++ r := by
+  intro F
+  induction F with
+  | nil => intro _ _ path r ps h; simp [seqSpec] at h; obtain ⟨rfl, _⟩ := h; exact ⟨by simp [consumesAll], [], rfl⟩
+  | cons f F ih =>
+    intro hw hns path r ps h
+    have hnf : noSplat [f] = true := by cases f <;> simp [noSplat] at hns ⊢
+    have hnF : noSplat F = true := by cases f <;> simp [noSplat] at hns ⊢ <;> exact hns
+    simp only [seqSpec] at h
+    cases ha : atomSpec f path with
+    | none => simp [ha] at h
+    | some x =>
+      obtain ⟨r1, p1⟩ := x
+      simp only [ha] at h
+      cases hs : seqSpec F r1 with
+      | none => simp [hs] at h
+      | some y =>
+        obtain ⟨r2, p2⟩ := y
+        simp [hs] at h
+        obtain ⟨rfl, _⟩ := h
+        obtain ⟨h1, pre1, h2⟩ := atom_slashes f (hw f (by simp)) hnf path r1 p1 ha
+        obtain ⟨h3, pre2, h4⟩ := ih (fun x hx => hw x (by simp [hx])) hnF r1 r2 p2 hs
+        refine ⟨by simp [consumesAll]; omega, pre1 ++ pre2, ?_⟩
+        rw [h2, h4]; simp
+
+/-- a wildcard (last) leaves nothing -/
+theorem seq_splat_rem : ∀ (F : List FSeg), (∀ f ∈ F, WfA f) → splatLast F = true → noSplat F = false →
+    ∀ (path r : Path) (ps : Params), seqSpec F path = some (r, ps) → r = [] := by
+  intro F
+  induction F with
+  | nil => intro _ _ h; simp [noSplat] at h
+  | cons f F ih =>
+    intro hw hsl hns path r ps h
+    simp only [seqSpec] at h
+    cases ha : atomSpec f path with
+    | none => simp [ha] at h
+    | some x =>
+      obtain ⟨r1, p1⟩ := x
+      simp only [ha] at h
+      cases hs : seqSpec F r1 with
+      | none => simp [hs] at h
+      | some y =>
+        obtain ⟨r2, p2⟩ := y
+        simp [hs] at h
+        have hr : r = r2 := h.1.symm
+        have hsl' : splatLast F = true := by
+          cases F with
+          | nil => rfl
+          | cons g G => cases f <;> simp [splatLast] at hsl ⊢ <;> exact hsl
+        cases f with
+        | splat n =>
+          have hF : F = [] := by
+            cases F with
+            | nil => rfl
+            | cons g G => simp [splatLast] at hsl
+          subst hF
+          simp [seqSpec] at hs
+          rw [hr, ← hs.1]
+          cases path with
+          | nil => simp [atomSpec] at ha; rw [← ha.1]
+          | cons c t =>
+            simp only [atomSpec] at ha
+            split at ha
+            · simp at ha; rw [← ha.1]
+            · simp at ha
+        | st s =>
+          rw [hr]
+          exact ih (fun x hx => hw x (by simp [hx])) hsl' (by simpa [noSplat] using hns) r1 r2 p2 hs
+        | param s =>
+          rw [hr]
+          exact ih (fun x hx => hw x (by simp [hx])) hsl' (by simpa [noSplat] using hns) r1 r2 p2 hs
+        | opt s => exact absurd (hw (.opt s) (by simp)) (by simp [WfA])
+
+theorem complete_slashes {r : Path} (h : complete r = true) : r = [] ∨ r = ['/'] := by
+  simp only [complete, Bool.or_eq_true, List.isEmpty_iff, beq_iff_eq] at h
+  exact h
+
+def lastC : Path → Option Char
+  | [] => none
+  | [c] => some c
+  | _ :: d :: t => lastC (d :: t)
+
+theorem lastC_append (a b : Path) (hb : b ≠ []) : lastC (a ++ b) = lastC b := by
+  induction a with
+  | nil => rfl
+  | cons c a ih =>
+    cases hab : a ++ b with
+    | nil => simp at hab; exact absurd hab.2 hb
+    | cons d t => simp only [List.cons_append, hab, lastC]; rw [← hab]; exact ih
+
+theorem lastC_slashes0 : ∀ (r : Path), r ≠ [] → slashes r = 0 → lastC r ≠ some '/' := by
+  intro r
+  induction r with
+  | nil => intro h; simp at h
+  | cons c t ih =>
+    intro _ hs
+    have hc : c ≠ '/' := by intro e; simp [slashes, e] at hs
+    have ht : slashes t = 0 := by simp [slashes, hc] at hs; exact hs
+    cases t with
+    | nil => simp [lastC, hc]
+    | cons d t' => simp only [lastC]; exact ih (by simp) ht
+
+/-- (Q') if the flat list `B` accepts `/seg…` completely, then run one segment later it cannot stop with
+something left over -/
+theorem no_leftover_after_shift (B : List FSeg) (hw : ∀ f ∈ B, WfA f) (hsl : splatLast B = true)
+    (t ra r3 : Path) (pa p3 : Params)
+    (h1 : seqSpec B ('/' :: t) = some (ra, pa)) (hc : complete ra = true)
+    (h2 : seqSpec B (segTail t) = some (r3, p3)) : complete r3 = true := by
+  by_cases hns : noSplat B = true
+  · obtain ⟨e1, pre1, s1⟩ := seq_slashes B hw hns _ _ _ h1
+    obtain ⟨e2, pre2, s2⟩ := seq_slashes B hw hns _ _ _ h2
+    have e3 : slashes ('/' :: t) = 1 + slashes (segTail t) := by
+      simp [slashes]; have := slashes_split t; omega
+    have hra : slashes ra = 1 + slashes r3 := by omega
+    rcases complete_slashes hc with hra0 | hra1
+    · rw [hra0] at hra; simp [slashes] at hra; omega
+    · have h30 : slashes r3 = 0 := by rw [hra1] at hra; simp [slashes] at hra; omega
+      by_cases hr3 : r3 = []
+      · simp [hr3, complete]
+      · exfalso
+        -- the path ends with `/` (from `ra`) and with the slash-free `r3`
+        have hlast1 : lastC ('/' :: t) = some '/' := by
+          rw [s1, hra1, lastC_append _ _ (by simp)]; rfl
+        have hsuf : '/' :: t = ('/' :: segHead t ++ pre2) ++ r3 := by
+          have h := segHead_append_segTail t
+          rw [s2] at h
+          rw [List.append_assoc, List.cons_append, h]
+        have hlast2 : lastC ('/' :: t) = lastC r3 := by
+          rw [hsuf, lastC_append _ _ hr3]
+        rw [hlast2] at hlast1
+        exact lastC_slashes0 r3 hr3 h30 hlast1
+  · have : r3 = [] := seq_splat_rem B hw hsl (by simpa using hns) _ _ _ h2
+    simp [this, complete]
+
+
+
+/-- a flat route with (at most) one optional accepts the path, router-side reading -/
+def gmatchO (F : List FSeg) (path : Path) : Option Params :=
+  match optSeqSpec F path with
+  | some (r, ps) => if complete r then some ps else none
+  | none => none
+
+theorem firstG_pair (X Y : List FSeg) (path : Path) : firstG [X, Y] path = orE (gmatch X path) (gmatch Y path) := by
+  simp only [firstG]
+  cases gmatch X path with
+  | some q => rfl
+  | none => simp only [orE]; cases gmatch Y path <;> rfl
+
+/-- the optional atom followed by an optional-free list: with the param, else without -/
+theorem gmatchO_opt_head (n : List Char) (B : List FSeg) (hw : ∀ f ∈ B, WfA f) (hsl : splatLast B = true)
+    (r1 : Path) : gmatchO (.opt n :: B) r1 = orE (gmatch (.param n :: B) r1) (gmatch B r1) := by
+  rw [gmatch_cons]
+  unfold gmatchO
+  simp only [optSeqSpec]
+  cases r1 with
+  | nil =>
+    simp only [optSpec, atomSpec, orE, List.nil_append]
+    unfold gmatch
+    cases seqSpec B [] with
+    | none => rfl
+    | some x => obtain ⟨r3, p3⟩ := x; rfl
+  | cons c t =>
+    by_cases hc : c = '/'
+    · subst hc
+      by_cases he : segHead t = []
+      · simp only [optSpec, if_true, he, atomSpec, true_and, ne_eq, not_true_eq_false, if_false, orE,
+          List.nil_append]
+        unfold gmatch
+        cases seqSpec B ('/' :: t) with
+        | none => rfl
+        | some x => obtain ⟨r3, p3⟩ := x; rfl
+      · simp only [optSpec, if_true, he, if_false, atomSpec, true_and, ne_eq, not_false_eq_true]
+        cases hs2 : seqSpec B (segTail t) with
+        | none =>
+          simp only [gmatch, hs2, Option.map_none, orE]
+          try (cases seqSpec B ('/' :: t) with
+            | none => rfl
+            | some x => obtain ⟨r3, p3⟩ := x; rfl)
+        | some x =>
+          obtain ⟨r3, p3⟩ := x
+          simp only [gmatch, hs2]
+          by_cases hcomp : complete r3 = true
+          · simp [hcomp, orE]
+          · simp only [hcomp, Bool.false_eq_true, if_false, Option.map_none, orE]
+            -- the variant without the optional cannot accept either
+            cases hs1 : seqSpec B ('/' :: t) with
+            | none => rfl
+            | some y =>
+              obtain ⟨ra, pa⟩ := y
+              simp only
+              by_cases hca : complete ra = true
+              · exact absurd (no_leftover_after_shift B hw hsl t ra r3 pa p3 hs1 hca hs2) hcomp
+              · simp [hca]
+    · have hu := gmatch_unaligned B (c :: t) (by simp) (by simp [startsSlash, hc])
+      simp [optSpec, hc, atomSpec, orE, hu]
+
+theorem optSeqSpec_cons (f : FSeg) (hf : f.isOpt = false) (F : List FSeg) (path : Path) :
+    optSeqSpec (f :: F) path =
+      match atomSpec f path with
+      | none => none
+      | some (r, ps) =>
+        match optSeqSpec F r with
+        | some (r', ps') => some (r', ps ++ ps')
+        | none => none := by
+  cases f <;> simp [FSeg.isOpt] at hf <;> rfl
+
+theorem gmatchO_cons (f : FSeg) (hf : f.isOpt = false) (F : List FSeg) (path : Path) :
+    gmatchO (f :: F) path =
+      match atomSpec f path with
+      | none => none
+      | some (r, ps) => (gmatchO F r).map (ps ++ ·) := by
+  unfold gmatchO
+  rw [optSeqSpec_cons f hf]
+  cases atomSpec f path with
+  | none => rfl
+  | some x =>
+    obtain ⟨r, ps⟩ := x
+    simp only
+    cases optSeqSpec F r with
+    | none => rfl
+    | some y => obtain ⟨r', ps'⟩ := y; simp only; split <;> simp
+
+theorem prefixAll_eq_map (a : List FSeg) (Gs : List (List FSeg)) : prefixAll a Gs = Gs.map (a ++ ·) := by
+  induction Gs with
+  | nil => rfl
+  | cons G Gs ih => simp [prefixAll, ih]
+
+theorem firstG_map_cons (f : FSeg) (Gs : List (List FSeg)) (path : Path) :
+    firstG (Gs.map (f :: ·)) path =
+      match atomSpec f path with
+      | none => none
+      | some (r, ps) => (firstG Gs r).map (ps ++ ·) := by
+  have := firstG_prefix [f] Gs path
+  rw [prefixAll_eq_map] at this
+  simp only [List.singleton_append] at this
+  rw [this]
+  simp only [seqSpec]
+  cases atomSpec f path with
+  | none => rfl
+  | some x => obtain ⟨r, ps⟩ := x; simp
+
+theorem splatLast_tail (f : FSeg) (F : List FSeg) (h : splatLast (f :: F) = true) : splatLast F = true := by
+  cases F with
+  | nil => rfl
+  | cons g G => cases f <;> simp [splatLast] at h ⊢ <;> exact h
+
+/-- **a leaf with one optional = its two registered expansions, in table order**: the router-side reading
+of the unexpanded flat route accepts exactly what the first accepting expansion accepts, with its params -/
+theorem gmatchO_eq_expansions : ∀ (F : List FSeg), (∀ f ∈ F, WfAO f) → countOptF F ≤ 1 → splatLast F = true →
+    ∀ path : Path, gmatchO F path = firstG (expandSpec F) path := by
+  intro F
+  induction F with
+  | nil =>
+    intro _ _ _ path
+    simp only [gmatchO, optSeqSpec, expandSpec, firstG, gmatch, seqSpec]
+    split <;> rfl
+  | cons f F ih =>
+    intro hw hc hsl path
+    have hw' : ∀ g ∈ F, WfAO g := fun x hx => hw x (by simp [hx])
+    have hsl' := splatLast_tail f F hsl
+    cases f with
+    | opt n =>
+      have hF0 : countOptF F = 0 := by simp [countOptF, FSeg.isOpt] at hc; omega
+      have hwa := wfa_of_count0 F hw' hF0
+      have hex : expandSpec F = [F] := (firstOpt_none (firstOpt_wfa F hwa)).2
+      simp only [expandSpec, hex, List.map_cons, List.map_nil, List.cons_append, List.nil_append]
+      rw [firstG_pair, gmatchO_opt_head n F hwa hsl']
+    | st s =>
+      have hF : countOptF F ≤ 1 := by simpa [countOptF, FSeg.isOpt] using hc
+      simp only [expandSpec]
+      rw [firstG_map_cons, gmatchO_cons _ rfl]
+      cases atomSpec (.st s) path with
+      | none => rfl
+      | some x => obtain ⟨r, ps⟩ := x; simp only; rw [ih hw' hF hsl' r]
+    | param s =>
+      have hF : countOptF F ≤ 1 := by simpa [countOptF, FSeg.isOpt] using hc
+      simp only [expandSpec]
+      rw [firstG_map_cons, gmatchO_cons _ rfl]
+      cases atomSpec (.param s) path with
+      | none => rfl
+      | some x => obtain ⟨r, ps⟩ := x; simp only; rw [ih hw' hF hsl' r]
+    | splat s =>
+      have hF : countOptF F ≤ 1 := by simpa [countOptF, FSeg.isOpt] using hc
+      simp only [expandSpec]
+      rw [firstG_map_cons, gmatchO_cons _ rfl]
+      cases atomSpec (.splat s) path with
+      | none => rfl
+      | some x => obtain ⟨r, ps⟩ := x; simp only; rw [ih hw' hF hsl' r]
+
+
+
+/-! ## route trees whose leaves may carry one optional -/
+
+theorem expandSpec_prefix : ∀ (A F : List FSeg), countOptF A = 0 → expandSpec (A ++ F) = (expandSpec F).map (A ++ ·) := by
+  intro A
+  induction A with
+  | nil => intro F _; simp
+  | cons f A ih =>
+    intro F h
+    have hf : f.isOpt = false := by
+      cases hh : f.isOpt <;> simp [countOptF, hh] at h ⊢
+    have hA : countOptF A = 0 := by simp [countOptF, hf] at h; exact h
+    cases f <;> simp [FSeg.isOpt] at hf <;> simp [expandSpec, ih F hA, List.map_map, Function.comp_def]
+
+theorem flatMap_prefixAll (A : List FSeg) (hA : countOptF A = 0) (Fs : List (List FSeg)) :
+    (prefixAll A Fs).flatMap expandSpec = prefixAll A (Fs.flatMap expandSpec) := by
+  induction Fs with
+  | nil => rfl
+  | cons F Fs ih =>
+    simp only [prefixAll, List.flatMap_cons, ih, expandSpec_prefix A F hA]
+    simp [prefixAll_eq_map]
+
+/-- the first definition (index from `i`) one of whose registered (expanded) routes accepts the path -/
+def firstDef1 : List Route → Nat → Path → Option (Nat × Params)
+  | [], _, _ => none
+  | c :: cs, i, path =>
+    match firstG (c.gen.flatMap expandSpec) path with
+    | some ps => some (i, ps)
+    | none => firstDef1 cs (i + 1) path
+
+theorem firstG_genList1 (cs : List Route) (i : Nat) (path : Path) :
+    firstG ((genList cs).flatMap expandSpec) path = (firstDef1 cs i path).map (·.2) := by
+  induction cs generalizing i with
+  | nil => rfl
+  | cons c cs ih =>
+    simp only [genList, List.flatMap_append, firstG_append, firstDef1]
+    cases firstG (c.gen.flatMap expandSpec) path with
+    | some ps => rfl
+    | none => exact ih (i + 1)
+
+mutual
+/-- the hypotheses of stage 1 on a route: well-formed atoms, optionals only in leaves, at most one per
+route, none inside an inner tuple -/
+def Route.stage1 : Route → Bool
+  | .mk segs children =>
+    segs.gen.all (fun f => decide (WfAO f)) && !segs.innerOptTuple && decide (countOptF segs.gen ≤ 1) &&
+    (if children.isEmpty then splatLast segs.gen else (!segs.optional && noSplat segs.gen)) && stage1List children
+def stage1List : List Route → Bool
+  | [] => true
+  | c :: cs => c.stage1 && stage1List cs
+end
+
+theorem countOptF_of_noopt (s : Seg) (h : s.optional = false) : countOptF s.gen = 0 := by
+  have := gen_noOpt s h
+  generalize s.gen = F at this
+  induction F with
+  | nil => rfl
+  | cons f F ih => simp [countOptF, this f (by simp), ih (fun x hx => this x (by simp [hx]))]
+
+mutual
+theorem nested_aligned1 : ∀ (r : Route), r.stage1 = true → ∀ (pos : Nat) (path : Path),
+    nres (matchNested .aligned r pos path) =
+      match firstG (r.gen.flatMap expandSpec) path with
+      | some ps => .some (some pos, ps)
+      | none => .none
+  | .mk segs children, hg, pos, path => by
+    simp only [Route.stage1, Bool.and_eq_true, Bool.not_eq_true', List.all_eq_true, decide_eq_true_eq] at hg
+    obtain ⟨⟨⟨⟨hwf, hin⟩, hcnt⟩, hkind⟩, hch⟩ := hg
+    by_cases hce : children.isEmpty = true
+    · -- a leaf, possibly with one optional
+      simp only [hce, if_true] at hkind
+      have hrp := one_opt_test .aligned segs path hin hcnt
+      rw [optSeq_aligned segs.gen hwf hcnt path] at hrp
+      have hgm := gmatchO_eq_expansions segs.gen hwf hcnt hkind path
+      simp only [matchNested, Route.gen, hce, if_true, List.flatMap_cons, List.flatMap_nil, List.append_nil]
+      rw [← hgm]
+      unfold gmatchO
+      cases hT : segs.test .aligned path with
+      | panic => rw [hT] at hrp; cases hsp : optSeqSpec segs.gen path <;> simp [hsp, Out.rp, ofOpt] at hrp
+      | none =>
+        rw [hT] at hrp
+        cases hsp : optSeqSpec segs.gen path with
+        | some x => simp [hsp, Out.rp, ofOpt] at hrp
+        | none => simp [nres]
+      | some pm =>
+        rw [hT] at hrp
+        cases hsp : optSeqSpec segs.gen path with
+        | none => simp [hsp, Out.rp, ofOpt] at hrp
+        | some x =>
+          obtain ⟨r, ps⟩ := x
+          simp [hsp, Out.rp, ofOpt] at hrp
+          simp only
+          unfold finish
+          rw [hrp.1, hrp.2]
+          by_cases hcomp : complete r = true <;> simp [hcomp, nres]
+    · -- a route with children: no optional of its own
+      simp only [hce, Bool.false_eq_true, if_false, Bool.and_eq_true, Bool.not_eq_true'] at hkind
+      obtain ⟨hopt, hnsp⟩ := hkind
+      have hwfa : ∀ f ∈ segs.gen, WfA f := fun f hf => wfa_of_wfao (hwf f hf) (gen_noOpt segs hopt f hf)
+      have hflat := flatten_test .aligned segs path hopt
+      have hseq := seq_aligned segs.gen hwfa path
+      simp only [matchNested, Route.gen, hflat, hce, Bool.false_eq_true, if_false,
+        flatMap_prefixAll segs.gen (countOptF_of_noopt segs hopt), firstG_prefix,
+        firstG_genList1 children 0]
+      cases hT : seqTest .aligned segs.gen path with
+      | panic => rw [hT] at hseq; cases hsp : seqSpec segs.gen path <;> simp [hsp, Out.rp, ofOpt] at hseq
+      | none =>
+        rw [hT] at hseq
+        cases hsp : seqSpec segs.gen path with
+        | some x => simp [hsp, Out.rp, ofOpt] at hseq
+        | none => simp [nres]
+      | some pm =>
+        rw [hT] at hseq
+        cases hsp : seqSpec segs.gen path with
+        | none => simp [hsp, Out.rp, ofOpt] at hseq
+        | some x =>
+          obtain ⟨r, ps⟩ := x
+          simp [hsp, Out.rp, ofOpt] at hseq
+          obtain ⟨hr, hps⟩ := hseq
+          simp only
+          have ihc := children_aligned1 children hch 0 pm.remaining
+          rw [hr] at ihc ⊢
+          cases hmc : matchChildren .aligned children 0 r with
+          | panic => rw [hmc] at ihc; cases hfd : firstDef1 children 0 r <;> simp [hfd, nres] at ihc
+          | none =>
+            rw [hmc] at ihc
+            cases hfd : firstDef1 children 0 r with
+            | some y => simp [hfd, nres] at ihc
+            | none => simp [hopt, nres]
+          | some inner rem =>
+            rw [hmc] at ihc
+            have hcomp := children_rem_complete .aligned children 0 r inner rem hmc
+            cases hfd : firstDef1 children 0 r with
+            | none => simp [hfd, nres] at ihc
+            | some y =>
+              obtain ⟨j, ps'⟩ := y
+              simp [hfd, nres] at ihc
+              simp only
+              rw [finish_nres _ _ _ _ _ hcomp]
+              simp [hps, ihc.2]
+theorem children_aligned1 : ∀ (cs : List Route), stage1List cs = true → ∀ (i : Nat) (path : Path),
+    nres (matchChildren .aligned cs i path) =
+      match firstDef1 cs i path with
+      | some (j, ps) => .some (some j, ps)
+      | none => .none
+  | [], _, i, path => by simp [matchChildren, firstDef1, nres]
+  | c :: cs, hg, i, path => by
+    simp only [stage1List, Bool.and_eq_true] at hg
+    have ih := nested_aligned1 c hg.1 i path
+    simp only [matchChildren, firstDef1]
+    cases hm : matchNested .aligned c i path with
+    | panic => rw [hm] at ih; cases hf : firstG (c.gen.flatMap expandSpec) path <;> simp [hf, nres] at ih
+    | some m rem =>
+      rw [hm] at ih
+      cases hf : firstG (c.gen.flatMap expandSpec) path with
+      | none => simp [hf, nres] at ih
+      | some ps => simp [hf, nres] at ih; simp [nres, ih]
+    | none =>
+      rw [hm] at ih
+      cases hf : firstG (c.gen.flatMap expandSpec) path with
+      | some ps => simp [hf, nres] at ih
+      | none => simp only; exact children_aligned1 cs hg.2 (i + 1) path
+end
+
+
+
+/-! ## the table level, for any per-definition list of registered routes `E t` -/
+
+theorem firstDefT_gen (E : Route → List (List FSeg)) (FD : List Route → Nat → Path → Option (Nat × Params))
+    (hFD0 : ∀ i p, FD [] i p = none)
+    (hFD : ∀ c cs i p, FD (c :: cs) i p = match firstG (E c) p with | some ps => some (i, ps) | none => FD cs (i + 1) p)
+    (b : Option Path) (hb : baseOk b = true) (path : Path) (hp : startsSlash path = true) :
+    ∀ (tops : List Route) (i : Nat),
+      firstDefT (tops.map fun t => prefixAll (normBase b) (E t)) i path =
+        match stripBase .aligned b path with
+        | none => none
+        | some p => FD tops i p := by
+  intro tops
+  induction tops with
+  | nil => intro i; simp only [List.map_nil, firstDefT, hFD0]; cases stripBase .aligned b path <;> rfl
+  | cons c cs ih =>
+    intro i
+    simp only [List.map_cons, firstDefT, hFD, firstG_prefix, stripBase_aligned b hb path hp, ih]
+    cases stripBase .aligned b path with
+    | none => simp
+    | some p =>
+      simp only [Option.map_some]
+      cases firstG (E c) p <;> simp
+
+theorem table_first_gen (E : Route → List (List FSeg)) (b : Option Path) (hb : baseOk b = true) (t' : Path) :
+    ∀ (tops : List Route) (i0 i : Nat) (ps : Params),
+      (∀ t ∈ tops, ∀ X ∈ prefixAll (normBase b) (E t), FlatOk X) →
+      firstDefT (tops.map fun t => prefixAll (normBase b) (E t)) i0 ('/' :: t') = some (i, ps) →
+      i0 ≤ i ∧
+      (∃ t : Route, (tops.map fun t => (E t).map (withBase b))[i - i0]? = some ((E t).map (withBase b)) ∧
+        ps ∈ lenientParams ((E t).map (withBase b)) ('/' :: t')) ∧
+      (∀ j, firstStrict (tops.map fun t => (E t).map (withBase b)) ('/' :: t') i0 = some j → ¬ j < i) := by
+  intro tops
+  induction tops with
+  | nil => intro i0 i ps _ h; simp [firstDefT] at h
+  | cons c cs ih =>
+    intro i0 i ps hok h
+    simp only [List.map_cons, firstDefT] at h
+    cases hg : firstG (prefixAll (normBase b) (E c)) ('/' :: t') with
+    | some q =>
+      rw [hg] at h; simp at h
+      obtain ⟨rfl, rfl⟩ := h
+      refine ⟨Nat.le_refl _, ⟨c, by simp, ?_⟩, ?_⟩
+      · rw [lenientParams_base b hb]
+        exact firstG_imp_lenient _ (hok c (by simp)) t' q hg
+      · intro j hj
+        have := firstStrict_ge _ _ _ _ hj
+        omega
+    | none =>
+      rw [hg] at h; simp only at h
+      obtain ⟨h1, ⟨t, h2, h3⟩, h4⟩ := ih (i0 + 1) i ps (fun t ht => hok t (by simp [ht])) h
+      refine ⟨by omega, ⟨t, ?_, h3⟩, ?_⟩
+      · have : i - i0 = (i - (i0 + 1)) + 1 := by omega
+        rw [this]
+        simpa using h2
+      · intro j hj
+        simp only [List.map_cons, firstStrict] at hj
+        have hns : anyStrict ((E c).map (withBase b)) ('/' :: t') = false := by
+          rw [anyStrict_base b hb]
+          cases hs : anyStrict (prefixAll (normBase b) (E c)) ('/' :: t') with
+          | false => rfl
+          | true =>
+            obtain ⟨q, hq⟩ := anyStrict_imp_firstG _ (hok c (by simp)) _ hs
+            rw [hg] at hq; simp at hq
+        rw [hns] at hj
+        simp only [Bool.false_eq_true, if_false] at hj
+        exact h4 j hj
+
+theorem table_none_gen (E : Route → List (List FSeg)) (b : Option Path) (hb : baseOk b = true) (path : Path) :
+    ∀ (tops : List Route) (i0 : Nat),
+      (∀ t ∈ tops, ∀ X ∈ prefixAll (normBase b) (E t), FlatOk X) →
+      firstDefT (tops.map fun t => prefixAll (normBase b) (E t)) i0 path = none →
+      firstStrict (tops.map fun t => (E t).map (withBase b)) path i0 = none := by
+  intro tops
+  induction tops with
+  | nil => intro i0 _ _; rfl
+  | cons c cs ih =>
+    intro i0 hok h
+    simp only [List.map_cons, firstDefT] at h
+    cases hg : firstG (prefixAll (normBase b) (E c)) path with
+    | some q => rw [hg] at h; simp at h
+    | none =>
+      rw [hg] at h; simp only at h
+      have hns : anyStrict ((E c).map (withBase b)) path = false := by
+        rw [anyStrict_base b hb]
+        cases hs : anyStrict (prefixAll (normBase b) (E c)) path with
+        | false => rfl
+        | true =>
+          obtain ⟨q, hq⟩ := anyStrict_imp_firstG _ (hok c (by simp)) _ hs
+          rw [hg] at hq; simp at hq
+      simp only [List.map_cons, firstStrict, hns, Bool.false_eq_true, if_false]
+      exact ih (i0 + 1) (fun t ht => hok t (by simp [ht])) h
+
+/-- the oracle accepts an outcome that is "the first definition whose registered routes `E t` accept" -/
+theorem judge_of_table (E : Route → List (List FSeg)) (d : Defs) (hb : baseOk d.base = true) (t' : Path)
+    (hok : ∀ t ∈ d.tops, ∀ X ∈ prefixAll (normBase d.base) (E t), FlatOk X)
+    (hper : expandedPerDef d = d.tops.map fun t => (E t).map (withBase d.base))
+    (got : Out NMatch)
+    (hr : mres got =
+      match firstDefT (d.tops.map fun t => prefixAll (normBase d.base) (E t)) 0 ('/' :: t') with
+      | some (i, ps) => .some (some i, ps)
+      | none => .none) :
+    judge d ('/' :: t') got = none := by
+  unfold judge
+  rw [hper]
+  cases hfd : firstDefT (d.tops.map fun t => prefixAll (normBase d.base) (E t)) 0 ('/' :: t') with
+  | none =>
+    rw [hfd] at hr
+    have hfs := table_none_gen E d.base hb ('/' :: t') d.tops 0 hok hfd
+    cases got with
+    | panic => simp [mres] at hr
+    | some m => simp [mres] at hr
+    | none => simp [hfs]
+  | some x =>
+    obtain ⟨i, ps⟩ := x
+    rw [hfd] at hr
+    obtain ⟨_, ⟨t, ht1, ht2⟩, hfirst⟩ := table_first_gen E d.base hb t' d.tops 0 i ps hok hfd
+    cases got with
+    | panic => simp [mres] at hr
+    | none => simp [mres] at hr
+    | some m =>
+      simp only [mres, Out.some.injEq, Prod.mk.injEq] at hr
+      obtain ⟨hhead, hparams⟩ := hr
+      cases hch : m.chain with
+      | nil => rw [hch] at hhead; simp at hhead
+      | cons e rest =>
+        obtain ⟨i', x⟩ := e
+        rw [hch] at hhead
+        simp at hhead
+        subst hhead
+        simp only [Nat.sub_zero] at ht1
+        have ht1' : Option.map (fun t : Route => (E t).map (withBase d.base)) d.tops[i']? =
+            some ((E t).map (withBase d.base)) := by simpa [List.getElem?_map] using ht1
+        have hne' : lenientParams ((E t).map (withBase d.base)) ('/' :: t') ≠ [] := by
+          intro hl; rw [hl] at ht2; simp at ht2
+        have hmem : m.params ∈ lenientParams ((E t).map (withBase d.base)) ('/' :: t') := by
+          rw [hparams]; exact ht2
+        cases hsf : firstStrict (d.tops.map fun t => (E t).map (withBase d.base)) ('/' :: t') 0 with
+        | none => simp [hch, ht1', hne', hmem, hsf]
+        | some j =>
+          have := hfirst j hsf
+          simp [hch, ht1', hne', hmem, hsf, this]
+
+
+
+/-- the registered (expanded) routes of one definition, without the base -/
+def regRoutes (t : Route) : List (List FSeg) := t.gen.flatMap expandSpec
+
+theorem expandSpec_withBase (b : Option Path) (F : List FSeg) :
+    expandSpec (withBase b F) = (expandSpec F).map (withBase b) := by
+  cases b with
+  | none =>
+    have : withBase none = id := by funext x; rfl
+    simp [this]
+  | some b =>
+    have : withBase (some b) = (FSeg.st b :: ·) := by funext x; rfl
+    simp [this, withBase, expandSpec]
+
+theorem expandedPerDef_eq1 (d : Defs) :
+    expandedPerDef d = d.tops.map fun t => (regRoutes t).map (withBase d.base) := by
+  unfold expandedPerDef regRoutes
+  apply List.map_congr_left
+  intro t _
+  induction t.gen with
+  | nil => rfl
+  | cons F Fs ih =>
+    simp only [List.map_cons, List.flatMap_cons, List.map_append, ih, expandOptionals_eq_spec, expandSpec_withBase]
+
+theorem expand_flatok : ∀ (F : List FSeg), (∀ f ∈ F, WfAO f) → splatLast F = true →
+    ∀ G ∈ expandSpec F, FlatOk G := by
+  intro F
+  induction F with
+  | nil => intro _ _ G hG; simp [expandSpec] at hG; subst hG; exact ⟨by simp, rfl⟩
+  | cons f F ih =>
+    intro hw hsl G hG
+    have hw' : ∀ g ∈ F, WfAO g := fun x hx => hw x (by simp [hx])
+    have hsl' := splatLast_tail f F hsl
+    have ih' := ih hw' hsl'
+    have consOk : ∀ (g : FSeg) (G' : List FSeg), WfA g → (∀ n, g ≠ .splat n) → FlatOk G' → FlatOk (g :: G') := by
+      intro g G' hg hns hG'
+      refine ⟨fun x hx => ?_, ?_⟩
+      · simp only [List.mem_cons] at hx
+        rcases hx with rfl | hx
+        · exact hg
+        · exact hG'.1 x hx
+      · cases G' with
+        | nil => rfl
+        | cons a b =>
+          cases g with
+          | splat n => exact absurd rfl (hns n)
+          | st s => simpa [splatLast] using hG'.2
+          | param s => simpa [splatLast] using hG'.2
+          | opt s => simpa [splatLast] using hG'.2
+    cases f with
+    | opt n =>
+      simp only [expandSpec, List.mem_append, List.mem_map] at hG
+      have hn : Plain n := hw (.opt n) (by simp)
+      rcases hG with ⟨G', hG', rfl⟩ | hG
+      · exact consOk (.param n) G' hn (by simp) (ih' G' hG')
+      · exact ih' G hG
+    | st s =>
+      simp only [expandSpec, List.mem_map] at hG
+      obtain ⟨G', hG', rfl⟩ := hG
+      exact consOk (.st s) G' (hw (.st s) (by simp)) (by simp) (ih' G' hG')
+    | param s =>
+      simp only [expandSpec, List.mem_map] at hG
+      obtain ⟨G', hG', rfl⟩ := hG
+      exact consOk (.param s) G' (hw (.param s) (by simp)) (by simp) (ih' G' hG')
+    | splat s =>
+      have hF : F = [] := by
+        cases F with
+        | nil => rfl
+        | cons g G => simp [splatLast] at hsl
+      subst hF
+      simp [expandSpec] at hG
+      subst hG
+      exact ⟨fun x hx => by simp at hx; subst hx; exact hw (.splat s) (by simp), rfl⟩
+
+mutual
+theorem flats_wfao : ∀ (r : Route), r.stage1 = true → ∀ F ∈ r.gen, (∀ f ∈ F, WfAO f) ∧ splatLast F = true
+  | .mk segs children, hg, F, hF => by
+    simp only [Route.stage1, Bool.and_eq_true, Bool.not_eq_true', List.all_eq_true, decide_eq_true_eq] at hg
+    obtain ⟨⟨⟨⟨hwf, _⟩, _⟩, hkind⟩, hch⟩ := hg
+    simp only [Route.gen] at hF
+    by_cases hce : children.isEmpty = true
+    · simp only [hce, if_true, List.mem_singleton] at hF hkind
+      subst hF
+      exact ⟨hwf, hkind⟩
+    · simp only [hce, Bool.false_eq_true, if_false, Bool.and_eq_true, Bool.not_eq_true'] at hF hkind
+      obtain ⟨G, hG, rfl⟩ := mem_prefixAll _ _ _ hF
+      have hGok := flatsList_wfao children hch G hG
+      refine ⟨?_, splatLast_append _ _ hkind.2 hGok.2⟩
+      intro f hf
+      simp only [List.mem_append] at hf
+      rcases hf with hf | hf
+      · exact hwf f hf
+      · exact hGok.1 f hf
+theorem flatsList_wfao : ∀ (cs : List Route), stage1List cs = true →
+    ∀ F ∈ genList cs, (∀ f ∈ F, WfAO f) ∧ splatLast F = true
+  | [], _, F, hF => by simp [genList] at hF
+  | c :: cs, hg, F, hF => by
+    simp only [stage1List, Bool.and_eq_true] at hg
+    simp only [genList, List.mem_append] at hF
+    rcases hF with hF | hF
+    · exact flats_wfao c hg.1 F hF
+    · exact flatsList_wfao cs hg.2 F hF
+end
+
+theorem stage1List_mem : ∀ (cs : List Route) (t : Route), stage1List cs = true → t ∈ cs → t.stage1 = true := by
+  intro cs
+  induction cs with
+  | nil => intro t _ h; simp at h
+  | cons c cs ih =>
+    intro t hg h
+    simp only [stage1List, Bool.and_eq_true] at hg
+    simp only [List.mem_cons] at h
+    rcases h with rfl | h
+    · exact hg.1
+    · exact ih t hg.2 h
+
+theorem regRoutes_ok (b : Option Path) (hb : baseOk b = true) (t : Route) (ht : t.stage1 = true) :
+    ∀ X ∈ prefixAll (normBase b) (regRoutes t), FlatOk X := by
+  intro X hX
+  obtain ⟨G, hG, rfl⟩ := mem_prefixAll _ _ _ hX
+  simp only [regRoutes, List.mem_flatMap] at hG
+  obtain ⟨F, hF, hGF⟩ := hG
+  have hFok := flats_wfao t ht F hF
+  have hGok := expand_flatok F hFok.1 hFok.2 G hGF
+  refine ⟨?_, splatLast_append _ _ (normBase_noSplat b) hGok.2⟩
+  intro f hf
+  simp only [List.mem_append] at hf
+  rcases hf with hf | hf
+  · exact normBase_ok b hb f hf
+  · exact hGok.1 f hf
+
+-- the hypotheses of stage 1, as the negations of the known-finding class predicates
+mutual
+theorem stage1_of_classes : ∀ (r : Route), r.wf = true → r.hasOptParent = false → r.hasMultiOpt = false →
+    r.hasInnerOptTuple = false → r.stage1 = true
+  | .mk segs children, hw, h1, h2, h3 => by
+    simp only [Route.wf, Bool.and_eq_true, List.all_eq_true, decide_eq_true_eq] at hw
+    simp only [Route.hasOptParent, Bool.or_eq_false_iff, Bool.and_eq_false_iff, Bool.not_eq_false'] at h1
+    simp only [Route.hasMultiOpt, Bool.or_eq_false_iff, decide_eq_false_iff_not] at h2
+    simp only [Route.hasInnerOptTuple, Bool.or_eq_false_iff] at h3
+    simp only [Route.stage1, Bool.and_eq_true, Bool.not_eq_true', List.all_eq_true, decide_eq_true_eq]
+    refine ⟨⟨⟨⟨hw.1.1, h3.1⟩, by omega⟩, ?_⟩, stage1List_of_classes children hw.2 h1.2 h2.2 h3.2⟩
+    by_cases hce : children.isEmpty = true
+    · simpa [hce] using hw.1.2
+    · have hopt : segs.optional = false := by
+        rcases h1.1 with h | h
+        · exact absurd h hce
+        · exact h
+      simp only [hce, Bool.false_eq_true, if_false, Bool.and_eq_true, Bool.not_eq_true']
+      exact ⟨hopt, by simpa [hce] using hw.1.2⟩
+theorem stage1List_of_classes : ∀ (cs : List Route), wfList cs = true → anyOptParent cs = false →
+    anyMultiOpt cs = false → anyInnerOptTuple cs = false → stage1List cs = true
+  | [], _, _, _, _ => rfl
+  | c :: cs, hw, h1, h2, h3 => by
+    simp only [wfList, Bool.and_eq_true] at hw
+    simp only [anyOptParent, Bool.or_eq_false_iff] at h1
+    simp only [anyMultiOpt, Bool.or_eq_false_iff] at h2
+    simp only [anyInnerOptTuple, Bool.or_eq_false_iff] at h3
+    simp only [stage1List, Bool.and_eq_true]
+    exact ⟨stage1_of_classes c hw.1 h1.1 h2.1 h3.1, stage1List_of_classes cs hw.2 h1.2 h2.2 h3.2⟩
+end
+
+/-- the aligned router on a stage-1 table: the first definition one of whose registered (expanded)
+routes accepts the path, with that route's params; never a panic -/
+theorem route_aligned1 (d : Defs) (hb : baseOk d.base = true) (hs : stage1List d.tops = true) (path : Path)
+    (hp : startsSlash path = true) :
+    mres (matchRoute .aligned d path) =
+      match firstDefT (d.tops.map fun t => prefixAll (normBase d.base) (regRoutes t)) 0 path with
+      | some (i, ps) => .some (some i, ps)
+      | none => .none := by
+  unfold matchRoute
+  rw [firstDefT_gen regRoutes firstDef1 (fun _ _ => rfl) (fun _ _ _ _ => rfl) d.base hb path hp]
+  cases stripBase .aligned d.base path with
+  | none => simp [mres]
+  | some p =>
+    have hc := children_aligned1 d.tops hs 0 p
+    simp only
+    cases hm : matchChildren .aligned d.tops 0 p with
+    | panic => rw [hm] at hc; cases hf : firstDef1 d.tops 0 p <;> simp [hf, nres] at hc
+    | none =>
+      rw [hm] at hc
+      cases hf : firstDef1 d.tops 0 p with
+      | some x => simp [hf, nres] at hc
+      | none => simp [mres]
+    | some m rem =>
+      rw [hm] at hc
+      have hcomp := children_rem_complete .aligned d.tops 0 p m rem hm
+      cases hf : firstDef1 d.tops 0 p with
+      | none => simp [hf, nres] at hc
+      | some x =>
+        obtain ⟨j, ps⟩ := x
+        simp [hf, nres] at hc
+        simp [hcomp, mres, hc]
+
+/-- **match ⇔ flat with optional params, stage 1**: well-formed tables in which optional params occur
+only in leaf routes, at most one per route and not inside an inner tuple — i.e. outside the known-finding
+classes `optional-parent`, `optional-backoff-order`, `nested-optional-tuple` (the hypotheses ARE the
+negated class predicates the driver uses) — on every request path with `SegmentAligned` (the negation
+of `slash-parent`): the router matches iff a registered expansion accepts the path, the winner is the
+first such definition, the params are that expansion's, no panic. -/
+theorem C14_match_iff_flat_optional_leaves (d : Defs) (path : Path) (hw : d.wf = true)
+    (hp : startsSlash path = true) (h1 : anyOptParent d.tops = false) (h2 : anyMultiOpt d.tops = false)
+    (h3 : anyInnerOptTuple d.tops = false) (hal : SegmentAligned d path) : Holds d path := by
+  simp only [Defs.wf, Bool.and_eq_true, Bool.not_eq_true'] at hw
+  obtain ⟨⟨hb, hwl⟩, _⟩ := hw
+  have hs := stage1List_of_classes d.tops hwl h1 h2 h3
+  unfold Holds
+  rw [hal]
+  cases path with
+  | nil => simp [startsSlash] at hp
+  | cons c t' =>
+    have hc : c = '/' := by simpa [startsSlash] using hp
+    subst hc
+    exact judge_of_table regRoutes d hb t'
+      (fun t ht => regRoutes_ok d.base hb t (stage1List_mem d.tops t hs ht))
+      (expandedPerDef_eq1 d) _ (route_aligned1 d hb hs _ hp)
+
 /-! ## non-vacuity: every hypothesis above is satisfiable (and the conclusions are not trivially empty) -/
 
 -- C14_partition: a nested tuple with an optional that is backed off
@@ -4319,5 +5823,26 @@ example : richDefs.wf = true ∧ noOptionalList richDefs.tops = true ∧ noSlash
 
 example : slashParent.wf = true ∧ noOptionalList slashParent.tops = true ∧ ¬ Holds slashParent ['/', 'a'] ∧
     noSlashSegList slashParent.tops = false ∧ ¬ SegmentAligned slashParent ['/', 'a'] := by decide
+
+
+-- C14_match_iff_flat_optional_leaves: hypotheses satisfiable on a table with optional leaves (one of them
+-- wrapped in a 1-tuple, one below a parent, one with a wildcard), and the optional is really exercised:
+-- taken, skipped after the back-off, and consuming nothing
+def optLeaves : Defs :=
+  ⟨some ['/', 'b'],
+   [.mk (.st ['a']) [.mk (.tup [.tup [.opt ['o']], .st ['x']]) [], .mk (.tup [.param ['p'], .opt ['q']]) []],
+    .mk (.tup [.st ['f'], .opt ['r'], .splat ['w']]) []]⟩
+
+example : optLeaves.wf = true ∧ anyOptParent optLeaves.tops = false ∧ anyMultiOpt optLeaves.tops = false ∧
+    anyInnerOptTuple optLeaves.tops = false ∧
+    SegmentAligned optLeaves ['/', 'b', '/', 'a', '/', 'y', '/', 'x'] ∧
+    matchRoute .cur optLeaves ['/', 'b', '/', 'a', '/', 'y', '/', 'x'] =
+      .some ⟨[(0, ['/', 'a']), (0, ['/', 'y', '/', 'x'])], [(['o'], ['y'])]⟩ ∧
+    matchRoute .cur optLeaves ['/', 'b', '/', 'a', '/', 'x'] = .some ⟨[(0, ['/', 'a']), (0, ['/', 'x'])], []⟩ ∧
+    matchRoute .cur optLeaves ['/', 'b', '/', 'a', '/', 'z', '/'] =
+      .some ⟨[(0, ['/', 'a']), (1, ['/', 'z'])], [(['p'], ['z'])]⟩ ∧
+    matchRoute .cur optLeaves ['/', 'b', '/', 'f', '/', 'u', '/', 'v'] =
+      .some ⟨[(1, ['/', 'f', '/', 'u', '/', 'v'])], [(['r'], ['u']), (['w'], ['v'])]⟩ ∧
+    Holds optLeaves ['/', 'b', '/', 'a', '/', 'x'] := by decide
 
 end Leptos.Router
